@@ -15,7 +15,7 @@ Theorem C07_refused_at_passive_setup : forall w verb path io r rest x,
     run (CheckArg path (Scope (create_data_connection verb (Some path) []
             (fun acc => PumpIn (fun _ => finish_transfer acc)) (fun acc => Ret (RvReplies acc))))) (set_io w io)
       = (OReturn (RvReplies [x]), w') /\
-    ready w' /\ w_pending w' = [] /\ w_cur w' = rest /\ w_data w' = None /\
+    ready w' /\ w_pending w' = [] /\ w_cur w' = rest /\ w_data w' = None /\ w_cfg w' = w_cfg w /\
     io_events (skipn (length (w_trace w)) (w_trace w')) = [] /\
     data_events (skipn (length (w_trace w)) (w_trace w')) = [] /\
     wire_events (skipn (length (w_trace w)) (w_trace w')) = [WLine setup; WReply x].
